@@ -487,138 +487,141 @@ func (c *Ctx) checkCompress() {
 			}
 		}
 	})
-	if incSt == nil {
-		L.Bad("compress-count", r.label, "pattern counter", c.P.Pos(fn.Pos()), "no `count++` on the pattern record found")
-		return
-	}
-	lp := innermostLoopOf(loops, incSt.Block())
-	var ins ssa.Instruction
-	var get *ssa.Call
-	allInstrs(fn, func(in ssa.Instruction) {
-		if call, ok := in.(*ssa.Call); ok {
-			if f := call.Common().StaticCallee(); f != nil && f.Pkg != nil && strings.HasSuffix(f.Pkg.Pkg.Path(), "go-radix") {
-				switch f.Name() {
-				case "Insert":
-					ins = in
-				case "Get":
-					get = call
-				}
-			}
-		}
-	})
-	okOnce := false
-	if lp != nil && ins != nil {
-		c1 := eventCounts(lp, func(in ssa.Instruction) bool { return in == ssa.Instruction(incSt) })
-		c2 := eventCounts(lp, func(in ssa.Instruction) bool { return in == ins })
-		okOnce = len(c1) == 1 && c1[1] && len(c2) == 1 && c2[1]
-	}
-	bt, _ := incOp.Type().Underlying().(*types.Basic)
-	okType := bt != nil && bt.Kind() == types.Int
-	// same key for Get and Insert, value inserted = the record that was incremented
-	okKey := false
-	if get != nil && ins != nil {
-		ic := callOf(ins)
-		okKey = ic.Args[1] == get.Common().Args[1]
-	}
-	// new pattern: the pattern counter is incremented by one exactly on the not-found branch of the
-	// lookup, where the record is created with count 0. The counter is a cell (captured by the
-	// walk callback) or a register (a φ of the site loop): identified by role, not by name.
-	okNew := false
 	var npatCell ssa.Value // cell form
 	var npatPhi *ssa.Phi   // register form
-	if get != nil && lp != nil {
-		for _, ref := range *get.Referrers() {
-			ex, ok := ref.(*ssa.Extract)
-			if !ok || ex.Index != 1 {
-				continue
+	if incSt == nil {
+		// not the `rec.count++` shape: decide the same clause on the two classes of iterations
+		ok, det := c.compressCountByPaths(fn)
+		L.Check(ok, "compress-count", r.label, "one count++ and one Insert per site", c.P.Pos(fn.Pos()), det,
+			"site counting broken: "+det+": weights no longer sum to the alignment length")
+	} else {
+		lp := innermostLoopOf(loops, incSt.Block())
+		var ins ssa.Instruction
+		var get *ssa.Call
+		allInstrs(fn, func(in ssa.Instruction) {
+			if call, ok := in.(*ssa.Call); ok {
+				if f := call.Common().StaticCallee(); f != nil && f.Pkg != nil && strings.HasSuffix(f.Pkg.Pkg.Path(), "go-radix") {
+					switch f.Name() {
+					case "Insert":
+						ins = in
+					case "Get":
+						get = call
+					}
+				}
 			}
-			for _, rr := range *ex.Referrers() {
-				ifi, ok := rr.(*ssa.If)
-				if !ok {
+		})
+		okOnce := false
+		if lp != nil && ins != nil {
+			c1 := eventCounts(lp, func(in ssa.Instruction) bool { return in == ssa.Instruction(incSt) })
+			c2 := eventCounts(lp, func(in ssa.Instruction) bool { return in == ins })
+			okOnce = len(c1) == 1 && c1[1] && len(c2) == 1 && c2[1]
+		}
+		bt, _ := incOp.Type().Underlying().(*types.Basic)
+		okType := bt != nil && bt.Kind() == types.Int
+		// same key for Get and Insert, value inserted = the record that was incremented
+		okKey := false
+		if get != nil && ins != nil {
+			ic := callOf(ins)
+			okKey = ic.Args[1] == get.Common().Args[1]
+		}
+		// new pattern: the pattern counter is incremented by one exactly on the not-found branch of the
+		// lookup, where the record is created with count 0. The counter is a cell (captured by the
+		// walk callback) or a register (a φ of the site loop): identified by role, not by name.
+		okNew := false
+		if get != nil && lp != nil {
+			for _, ref := range *get.Referrers() {
+				ex, ok := ref.(*ssa.Extract)
+				if !ok || ex.Index != 1 {
 					continue
 				}
-				nf := ifi.Block().Succs[1]
-				nInc, zero := 0, false
-				for _, in := range nf.Instrs {
-					if st, ok := in.(*ssa.Store); ok {
-						if bo, ok := st.Val.(*ssa.BinOp); ok && bo.Op == token.ADD {
+				for _, rr := range *ex.Referrers() {
+					ifi, ok := rr.(*ssa.If)
+					if !ok {
+						continue
+					}
+					nf := ifi.Block().Succs[1]
+					nInc, zero := 0, false
+					for _, in := range nf.Instrs {
+						if st, ok := in.(*ssa.Store); ok {
+							if bo, ok := st.Val.(*ssa.BinOp); ok && bo.Op == token.ADD {
+								if k, ok := constInt(bo.Y); ok && k == 1 {
+									if u, ok := bo.X.(*ssa.UnOp); ok && u.X == st.Addr {
+										if _, isCell := st.Addr.(*ssa.Alloc); isCell {
+											nInc++
+											npatCell = st.Addr
+										}
+									}
+								}
+							}
+							if fa, ok := st.Addr.(*ssa.FieldAddr); ok && fieldName(fa.X.Type(), fa.Field) == "count" {
+								if k, ok := constInt(st.Val); ok && k == 0 {
+									zero = true
+								}
+							}
+						}
+						if bo, ok := in.(*ssa.BinOp); ok && bo.Op == token.ADD && isIntType(bo.Type()) {
 							if k, ok := constInt(bo.Y); ok && k == 1 {
-								if u, ok := bo.X.(*ssa.UnOp); ok && u.X == st.Addr {
-									if _, isCell := st.Addr.(*ssa.Alloc); isCell {
-										nInc++
-										npatCell = st.Addr
-									}
-								}
-							}
-						}
-						if fa, ok := st.Addr.(*ssa.FieldAddr); ok && fieldName(fa.X.Type(), fa.Field) == "count" {
-							if k, ok := constInt(st.Val); ok && k == 0 {
-								zero = true
-							}
-						}
-					}
-					if bo, ok := in.(*ssa.BinOp); ok && bo.Op == token.ADD && isIntType(bo.Type()) {
-						if k, ok := constInt(bo.Y); ok && k == 1 {
-							if ph, ok := bo.X.(*ssa.Phi); ok && ph.Block() == lp.Head {
-								// every value the φ takes from inside the loop is itself or this increment
-								okEdges := true
-								for i, e := range ph.Edges {
-									if !lp.Blocks[ph.Block().Preds[i]] {
-										if k0, ok := constInt(e); !ok || k0 != 0 {
-											okEdges = false
-										}
-										continue
-									}
-									seen := map[ssa.Value]bool{ssa.Value(ph): true}
-									var leaves func(v ssa.Value)
-									leaves = func(v ssa.Value) {
-										if seen[v] {
-											return
-										}
-										seen[v] = true
-										if q, isPhi := v.(*ssa.Phi); isPhi {
-											for _, qe := range q.Edges {
-												leaves(qe)
+								if ph, ok := bo.X.(*ssa.Phi); ok && ph.Block() == lp.Head {
+									// every value the φ takes from inside the loop is itself or this increment
+									okEdges := true
+									for i, e := range ph.Edges {
+										if !lp.Blocks[ph.Block().Preds[i]] {
+											if k0, ok := constInt(e); !ok || k0 != 0 {
+												okEdges = false
 											}
-											return
+											continue
 										}
-										if v != ssa.Value(bo) {
-											okEdges = false
+										seen := map[ssa.Value]bool{ssa.Value(ph): true}
+										var leaves func(v ssa.Value)
+										leaves = func(v ssa.Value) {
+											if seen[v] {
+												return
+											}
+											seen[v] = true
+											if q, isPhi := v.(*ssa.Phi); isPhi {
+												for _, qe := range q.Edges {
+													leaves(qe)
+												}
+												return
+											}
+											if v != ssa.Value(bo) {
+												okEdges = false
+											}
 										}
+										leaves(e)
 									}
-									leaves(e)
-								}
-								if okEdges {
-									nInc++
-									npatPhi = ph
+									if okEdges {
+										nInc++
+										npatPhi = ph
+									}
 								}
 							}
 						}
 					}
-				}
-				// the found branch must not touch the counter
-				okNew = nInc == 1 && zero
-			}
-		}
-	}
-	if npatCell != nil && lp != nil {
-		// no other store to the counter inside the site loop
-		n := 0
-		for _, ref := range *npatCell.Referrers() {
-			if st, ok := ref.(*ssa.Store); ok && lp.Blocks[st.Block()] {
-				n++
-				if bo, ok := st.Val.(*ssa.BinOp); !ok || bo.Op != token.ADD {
-					okNew = false
+					// the found branch must not touch the counter
+					okNew = nInc == 1 && zero
 				}
 			}
 		}
-		if n != 1 {
-			okNew = false
+		if npatCell != nil && lp != nil {
+			// no other store to the counter inside the site loop
+			n := 0
+			for _, ref := range *npatCell.Referrers() {
+				if st, ok := ref.(*ssa.Store); ok && lp.Blocks[st.Block()] {
+					n++
+					if bo, ok := st.Val.(*ssa.BinOp); !ok || bo.Op != token.ADD {
+						okNew = false
+					}
+				}
+			}
+			if n != 1 {
+				okNew = false
+			}
 		}
+		L.Check(okOnce && okType && okKey && okNew, "compress-count", r.label, "one count++ and one Insert per site", c.P.Pos(incSt.Pos()),
+			"every site increments exactly one int counter by one; the record is inserted under the key it was looked up with; npat++ and a zero counter exactly when the pattern is new",
+			fmt.Sprintf("site counting broken (exactly one count++ and one Insert per site: %v; counter type is int: %v [%v]; same key for Get and Insert: %v; new pattern ⇔ npat++ with a zero counter: %v): weights no longer sum to the alignment length", okOnce, okType, incOp.Type(), okKey, okNew))
 	}
-	L.Check(okOnce && okType && okKey && okNew, "compress-count", r.label, "one count++ and one Insert per site", c.P.Pos(incSt.Pos()),
-		"every site increments exactly one int counter by one; the record is inserted under the key it was looked up with; npat++ and a zero counter exactly when the pattern is new",
-		fmt.Sprintf("site counting broken (exactly one count++ and one Insert per site: %v; counter type is int: %v [%v]; same key for Get and Insert: %v; new pattern ⇔ npat++ with a zero counter: %v): weights no longer sum to the alignment length", okOnce, okType, incOp.Type(), okKey, okNew))
 	L.Floor("compress-count", 1, "site loop")
 
 	// weights
